@@ -149,6 +149,26 @@ def plan(case, thorough, full_graph):
     tasks.append({'kind': 'includes-closed', 'point': pid, 'bad': bad})
     if pid in ('base', 'mc=p0:0'):
         tasks.append(file_name_task(case))
+        # SIZE: long banner lines and long shell names - header and source must still be C++
+        long_line = ('word ' * 400)
+        variants = []
+        for n in (100, 158, 161, 257, 1000):
+            variants.append((f'copyright-line-{n}', dict(case['cfg'], copyright=long_line[:n] + '\nsecond line'), case['model']))
+            variants.append((f'creator-line-{n}', dict(case['cfg'], creator=long_line[:n]), case['model']))
+        for n in (24, 31, 41, 64, 120):
+            stem = ('VeryLongDezyneModelFileNameForTheHeatingSubsystemController' * 3)[:n]
+            for fac in ('create', 'import'):
+                variants.append((f'shell-name-{n + len(case["cfg"].get("suffix", "Shell"))}-{fac}',
+                                 dict(case['cfg'], fac=fac), dict(case['model'], file=f'dir/{stem}.dzn')))
+        for label, cfg_v, model_v in variants:
+            try:
+                vcase = {'id': pid, 'point': case['point'], 'model': model_v, 'cfg': cfg_v}
+                vsrc, vnames = lab.generate_sources(vcase)
+            except Exception as exc:  # pylint: disable=broad-except
+                tasks.append({'kind': 'size-generation-failed', 'point': pid, 'label': label, 'error': repr(exc)})
+                continue
+            del vsrc['driver.cc']
+            tasks.append({'kind': 'size-compile', 'point': pid, 'label': label, 'src': vsrc, 'mains': [vnames[1]]})
 
     def syntax(kind, includes, compiler=None):
         tasks.append({'kind': kind, 'point': pid, 'includes': includes, 'src': src, 'compiler': compiler,
@@ -205,6 +225,18 @@ def run_task(task):
         for name, inc in task['bad']:
             part.violation(f'quoted-include-not-in-file-set:{inc}', f'point {task["point"]}: {name} includes "{inc}"', rcase)
         return part
+    if kind == 'size-generation-failed':
+        part.violation(f'size:{task["label"]}:generation-failed', f'point {task["point"]}: {task["error"]}', rcase)
+        return part
+    if kind == 'size-compile':
+        res = lab.run_sources(task['src'], main=task['mains'], syntax_only=True)
+        part.outcome('size-compile')
+        part.nontrivial += 1
+        if not res['compiled']:
+            first = (res['compile_error'].splitlines() or ['?'])[0].split('error:')[-1].strip()[:70]
+            part.violation(f'size:{task["label"].rsplit("-", 1)[0] if task["label"].startswith("shell") else task["label"]}:{first}',
+                           f'point {task["point"]} ({task["label"]}): {res["compile_error"][:500]}', dict(rcase, label=task['label']))
+        return part
     if kind == 'file-names':
         part.outcome('file-names')
         part.evaluations += task['count'] - 1
@@ -253,6 +285,7 @@ def judge(case):
     out = []
     for task in plan(lab.make_case(pt[0]), True, True):
         if task['kind'] == case['kind'] and task.get('includes') == case.get('includes') and \
+                task.get('label') == case.get('label') and \
                 task.get('compiler') == case.get('compiler'):
             part = run_task(task)
             out += [(k, v[0]) for k, v in part.violations.items()]
